@@ -199,8 +199,8 @@ def plan(tier, seed):
                 fam = gen.FAMILIES[i % 5] if form == 'faces' and i % 2 == 0 else None
                 cases.append({'cls': cls, 'form': form, 'seed': [seed, 10, idx, i], 'family': fam,
                               'nmax': 6 if tier == 'quick' else 12})
-                if form == 'faces' and i % 4 == 0:     # tiny / huge length units and almost-uniform spacing
-                    cases.append({'cls': cls, 'form': form, 'seed': [seed, 10, idx, 100000 + i], 'family': None, 'geo': ['nano', 'jitter', 'mega'][(i // 4) % 3],
+                if form == 'faces' and i % 3 == 0:     # tiny / huge length units and almost-uniform spacing
+                    cases.append({'cls': cls, 'form': form, 'seed': [seed, 10, idx, 100000 + i], 'family': None, 'geo': ['nano', 'jitter', 'mega', 'int'][(i // 3) % 4],
                                   'nmax': 6 if tier == 'quick' else 12})
             idx += 1
             step = 100 if NDIM[cls] < 3 else 50
@@ -212,7 +212,7 @@ def plan(tier, seed):
 def floors(agg, tier):
     need = 30 if tier == 'quick' else 1000
     out = []
-    for geo in ('nano', 'jitter', 'mega'):
+    for geo in ('nano', 'jitter', 'mega', 'int'):
         if agg['cov'].get('geo:' + geo, 0) < 20:
             out.append('geo:%s < 20' % geo)
     for cls in CLASSES:
